@@ -70,7 +70,7 @@ def rule_precede(db, chk, cfg, rule="PRECEDE"):
             pass
         seen = set()
         for x, nm, is_open, rec, rev in cl.sites:
-            key = (x.get("line"), nm)
+            key = (x.get("line"), nm, is_open)
             if key in seen:
                 continue
             seen.add(key)
